@@ -15,7 +15,9 @@ Proof.
   intros I H. inv_step H. fold (T s t) in H.
   destruct (started (T s t)) eqn:Hst; cbn [negb] in H; [|discriminate].
   destruct (Nat.ltb_spec 0 (refs (T s t))) as [Hr|Hr]; cbn [negb orb] in H; [|discriminate].
-  destruct (lends_from s t) eqn:Hlf; [discriminate|].
+  destruct (lends_from s t && Nat.leb (refs (T s t)) 1) eqn:Hlf0; [discriminate|].
+  assert (Hlf : lends_from s t = false \/ 2 <= refs (T s t)).
+  { apply andb_false_iff in Hlf0. destruct Hlf0 as [H0|H0]; [left; exact H0|right; apply Nat.leb_gt in H0; lia]. }
   destruct (live s) eqn:Hl; cbn [negb] in H; [|discriminate].
   destruct (nth_error (msgs s) p) as [m|] eqn:Hn; [|discriminate].
   destruct (forallb _ _) eqn:Hall; cbn [negb] in H; [|discriminate].
@@ -23,8 +25,12 @@ Proof.
   destruct (J1 s I Hl) as [Hne Hv].
   pose proof (forallb_nothb _ _ Hall) as Hnhb.
   (* key fact: reading value 1 means reading the latest message *)
-  assert (Hkey : val m = 1 -> p = 0).
-  { intros H1. destruct p as [|p]; [reflexivity|]. exfalso.
+  (* a thread that lends and probes on behalf of another of its handles holds two references: it cannot read 1 *)
+  assert (Hno1 : 2 <= refs (T s t) -> val m <> 1).
+  { intros H2 H1. pose proof (J11 s I t p m Hr Hn Hnhb). lia. }
+  assert (Hkey : val m = 1 -> p = 0 /\ lends_from s t = false).
+  { intros H1. destruct Hlf as [Hlf|H2]; [|exfalso; exact (Hno1 H2 H1)]. split; [|exact Hlf].
+    destruct p as [|p]; [reflexivity|]. exfalso.
     assert (Hun : unseen s t (S p)).
     { intros m' Hin. split; [exact (Hnhb m' Hin)|]. intros c Hc. exfalso. exact (lends_from_false s t c Hlf Hc). }
     pose proof (J7 s I t (S p) m Hr ltac:(lia) Hn Hun). lia. }
@@ -58,7 +64,7 @@ Proof.
         repeat split; auto; try (rewrite Htot; auto).
         -- eapply cle_trans; [exact HWc | exact Hcc].
         -- eapply cle_trans; [exact HRc | exact Hcc].
-      * apply Nat.eqb_eq in He. specialize (Hkey He). subst p.
+      * apply Nat.eqb_eq in He. destruct (Hkey He) as (-> & Hlf').
         (* m is the head *)
         destruct (msgs s) as [|m1 l1] eqn:Hms; [contradiction|]. cbn in Hn. injection Hn as ->.
         unfold hdm in Hv. rewrite Hms in Hv. cbn [hd] in Hv.
@@ -76,7 +82,7 @@ Proof.
            ++ exfalso. exact (mustfree_no_refs s h t I Hm Hr).
            ++ exfalso. destruct (lend (T s h)) as [|q] eqn:El; [contradiction|].
               destruct (J10 s I h q El) as (_ & _ & Hrq & _).
-              destruct (Nat.eq_dec q t) as [->|Hqt]; [exact (lends_from_false s t h Hlf El)|].
+              destruct (Nat.eq_dec q t) as [->|Hqt]; [exact (lends_from_false s t h Hlf' El)|].
               specialize (Hall0 q Hqt). lia.
     + intros He. destruct (J5 s I u He) as (_ & H1 & Ht1 & _).
       pose proof (T2_le_total s u t Hne'). lia.
@@ -85,7 +91,10 @@ Proof.
   - intros u. rewrite HT. destruct (Nat.eqb_spec u t) as [->|Hne']; cbn [started x']; [discriminate|].
     apply (J8 s I u).
   - intros _ H0. rewrite Htot in H0. pose proof (total_ge (ths s) t). unfold T, getth in *. lia.
-  - apply J10_upd; auto. intros (c & Hc). exfalso. exact (lends_from_false s t c Hlf Hc).
+  - apply J10_upd; auto. intros (c & Hc). destruct Hlf as [Hlf|H2]; [exfalso; exact (lends_from_false s t c Hlf Hc)|].
+    cbn [refs excl x']. split; [lia|]. destruct (J10 s I c t Hc) as (_ & _ & _ & _ & He' & _). rewrite He'. cbn [orb].
+    apply Nat.eqb_neq. exact (Hno1 H2).
+  - apply J11_upd; auto.
 Qed.
 
 (* ---------- AFree ---------- *)
@@ -125,4 +134,5 @@ Proof.
     apply (J8 s I u).
   - discriminate.
   - apply J10_upd; auto. intros (c0 & Hc0). exfalso. exact (borrower_no_mustfree s c0 t t I Hc0 Hmf).
+  - apply J11_upd; auto.
 Qed.
